@@ -586,7 +586,7 @@ def gen_scenarios(tier, rnd):
                                               (T_ENC, res_tag(1, nsid=b"\x09" * 8)(ctx, None))], "forged-resume")]))
     if full:
         # random double mutations
-        for _ in range(6000):
+        for _ in range(20000):
             tr = rnd.choice(TRANSPORTS)
             n2 = honest_shape(tr, 0)[0]
             ops = [raw(r_flipbit(rnd.randrange(n2), rnd.randrange(8)), "flip") for _ in range(2)]
@@ -868,6 +868,16 @@ def run(ctx):
                    "consumed at least M2 (i.e. not rejected by the transport's TLV decoder)")
     viol = []
     scns = gen_scenarios(tier, rnd)
+    if ctx.get("replay"):
+        # --replay <file>: re-run exactly the scenario a replay file names (deterministic keys), all three ways
+        import json
+        want = json.load(open(ctx["replay"])).get("scenario")
+        scns = [s for s in scns if s.ident() == want] or \
+               [s for s in gen_scenarios("thorough", rng(ctx["seed"], "c01")) if s.ident() == want]
+        if not scns:
+            return dict(coverage=dict(evaluations=0, distinct_nontrivial=0, rule="replay", samples=[]),
+                        violations=[violation("replay:unknown-scenario", f"no scenario named {want}", False)])
+        scns = scns[:1]
     recs = [run_scenario(s) for s in scns]
     lines = [r["model_req"] for r in recs if r["model_req"]]
     answers = iter(drv.batch(lines))
